@@ -697,3 +697,49 @@ func funcOfValue(v ssa.Value) *ssa.Function {
 	}
 	return nil
 }
+
+// constGlobalInit: the value a package-level variable is initialised with, if the package initialiser stores it exactly
+// once, nothing else stores to it or takes its address, and (for slices) no element is assigned through it; nil otherwise.
+func (w *World) constGlobalInit(g *ssa.Global) ssa.Value {
+	var val ssa.Value
+	nStores := 0
+	ok := true
+	for _, f := range w.Funcs {
+		allInstrs(f, func(in ssa.Instruction) {
+			for _, op := range in.Operands(nil) {
+				if op == nil || *op != ssa.Value(g) {
+					continue
+				}
+				switch x := in.(type) {
+				case *ssa.Store:
+					if x.Addr == ssa.Value(g) && f.Name() == "init" {
+						nStores++
+						val = x.Val
+					} else {
+						ok = false
+					}
+				case *ssa.UnOp:
+					// a load: no element may be assigned through it
+					if x.Referrers() != nil {
+						for _, rf := range *x.Referrers() {
+							if ia, isIA := rf.(*ssa.IndexAddr); isIA && ia.Referrers() != nil {
+								for _, r2 := range *ia.Referrers() {
+									if st, isSt := r2.(*ssa.Store); isSt && st.Addr == ssa.Value(ia) {
+										ok = false
+									}
+								}
+							}
+						}
+					}
+				case *ssa.DebugRef:
+				default:
+					ok = false // address escapes
+				}
+			}
+		})
+	}
+	if !ok || nStores != 1 {
+		return nil
+	}
+	return val
+}
